@@ -89,7 +89,7 @@ class Q:
         return b.u64.reshape(n, 4).copy()
 
 
-def product(qc, kind, impl, x_lanes, y_lanes, off=0):
+def product(qc, kind, impl, x_lanes, y_lanes, off=0, pre=None):
     """kind: baa|bbb|bbc|x2c1|x2c2.  x_lanes / y_lanes: lists of elements; an element of layout a/b is 4 uint64 lanes, of
     layout c is 4 pairs (8 uint32).  For x2 kinds, x has 2 elements per term and y has 2 (1 col) or 4 (2 cols).
     Returns list of result elements (each 4 Python ints), or None if the memory contract was broken."""
@@ -112,7 +112,7 @@ def product(qc, kind, impl, x_lanes, y_lanes, off=0):
         else:
             Y.u64[:] = np.array(y_lanes, dtype=np.uint64).reshape(-1)
     x0, y0 = X.snapshot(), Y.snapshot()
-    L.fn(fname, "v puppp")(qc.prod_pre(base), ell, R.addr, X.addr, Y.addr)
+    L.fn(fname, "v puppp")(pre if pre is not None else qc.prod_pre(base), ell, R.addr, X.addr, Y.addr)
     if not (X.canaries_ok() and Y.canaries_ok() and R.canaries_ok() and np.array_equal(X.u8, x0) and np.array_equal(Y.u8, y0)):
         return None
     return [[int(v) for v in R.u64[4 * i:4 * i + 4]] for i in range(nres)]
